@@ -723,19 +723,19 @@ theorem hd_to_sock {c : Cfg} {s : St} {x : St × R Unit}
 theorem setSock_P (c : Cfg) (hco : CloseOk c) (s : St) (rc : Bool) (hp : s.hasDoneTeardown = false)
     (hpre : ErrOk c → rc = true → s.hasErrored = true) : SockPost c s (setSock c s rc) := by
   unfold setSock
-  simp only []
   -- release of the previous transport
-  have f0 : Frame s (if rc then (match s.sock with | some _ => closeTransport s | none => s) else s) := by
+  have f0 : Frame s (release s rc) := by
+    unfold release
     split
     · split
       · exact frame_closeTransport s
       · exact Frame.refl s
     · exact Frame.refl s
-  generalize (if rc then (match s.sock with | some _ => closeTransport s | none => s) else s) = s0 at f0 ⊢
+  generalize release s rc = s0 at f0 ⊢
   obtain ⟨k1, k2, k3, k4, k5, k6, k7, k8⟩ := connect_spec s0
   rcases hcn : connect s0 with ⟨s1, r1⟩
   rw [hcn] at k1 k2 k3 k4 k5 k6 k7 k8
-  simp only [] at k1 k2 k3 k4 k5 k6 k7 k8 ⊢
+  simp only [] at k1 k2 k3 k4 k5 k6 k7 k8
   have h1 : s1.hasDoneTeardown = false := by rw [k1, f0.hdt]; exact hp
   have hcb1 : cbs s1 = cbs s := by rw [k4, f0.cb]
   have hhe1 : s1.hasErrored = s.hasErrored := by rw [k2, f0.he]
@@ -749,14 +749,14 @@ theorem setSock_P (c : Cfg) (hco : CloseOk c) (s : St) (rc : Bool) (hp : s.hasDo
     rcases hd_to_sock this with hh | post
     · exact Or.inl hh
     · exact Or.inr (Post.trans_stay δ hc2 hcl2 hl2 post)
+  unfold afterConnect
   cases r1 with
   | halt => simp [R.isHalt] at k7
   | exc e =>
-    simp only []
     exact viaHD s1 e [] h1 (by simpa using hcb1) rfl (fun _ => by simpa using hhe1) (fun _ => k6 e rfl)
   | ok u =>
     cases u
-    simp only []
+    try simp only []
     obtain ⟨p1, p2, p3, p4, p5⟩ := startPing_spec c s1
     have f2h : (if c.iv ≠ 0 then startPing c s1 else s1).hasDoneTeardown = false := by
       split
@@ -771,27 +771,28 @@ theorem setSock_P (c : Cfg) (hco : CloseOk c) (s : St) (rc : Bool) (hp : s.hasDo
       · rw [p2]; exact hhe1
       · exact hhe1
     generalize (if c.iv ≠ 0 then startPing c s1 else s1) = s2 at f2h f2c f2e ⊢
-    have hne : (if (rc && c.has Cb.onReconnect) = true then Cb.onReconnect else Cb.onOpen) ≠ .onClose ∧
-        (if (rc && c.has Cb.onReconnect) = true then Cb.onReconnect else Cb.onOpen) ≠ .onError := by
-      split <;> simp
-    generalize (if (rc && c.has Cb.onReconnect) = true then Cb.onReconnect else Cb.onOpen) = cb0 at hne ⊢
+    have hne : openCb c rc ≠ .onClose ∧ openCb c rc ≠ .onError := by
+      unfold openCb; split <;> simp
+    generalize openCb c rc = cb0 at hne ⊢
     obtain ⟨m3, ⟨δ3, hc3, hcl3, her3⟩, hex3⟩ := plain_cb_spec c s2 cb0 [] hne.1 hne.2
     rcases hx : callback c s2 cb0 [] with ⟨s3, r3⟩
     rw [hx] at m3 hc3 hex3
-    simp only [] at m3 hc3 hex3 ⊢
+    simp only [] at m3 hc3 hex3
     have h3 : s3.hasDoneTeardown = false := by rw [m3.hdt]; exact f2h
     have hc3' : cbs s3 = cbs s ++ δ3 := by rw [hc3, f2c]
     have hl3 : ErrOk c → s3.hasErrored = (s.hasErrored || errsIn δ3) := fun _ => by rw [m3.he, f2e, her3]; simp
+    unfold afterOpen
     cases r3 with
     | halt => left; rfl
     | exc e => exact viaHD s3 e δ3 h3 hc3' hcl3 hl3 (fun heo => by rw [hex3 heo e rfl]; rfl)
     | ok u =>
       cases u
-      simp only []
+      try simp only []
       cases hs3 : s3.sock with
       | none => exact viaHD s3 .attrError δ3 h3 hc3' hcl3 hl3 (fun _ => rfl)
       | some w =>
-        simp only []
+        try simp only []
+        unfold afterLoop
         rcases dispLoop_P c hco c.fuel s3 h3 with hh | post
         · left
           rcases hd : dispLoop c c.fuel s3 with ⟨s4, r4⟩
@@ -855,6 +856,7 @@ theorem reconnectLoop_P (c : Cfg) (hco : CloseOk c) : ∀ (n : Nat) (s : St), s.
         have sp := setSock_P c hco s2 true h2 (fun heo _ => by rw [f.he]; exact hpre heo hk)
         rcases hss : setSock c s2 true with ⟨s3, r3⟩
         rw [hss] at sp
+        unfold rlNext
         try simp only [] at sp ⊢
         rcases sp with hh | post
         · left
